@@ -1,6 +1,8 @@
 package vm
 
 import (
+	"fmt"
+
 	"github.com/elk-language/elk/value"
 	"github.com/elk-language/elk/value/symbol"
 )
@@ -48,40 +50,63 @@ func initTuple() {
 
 			length := lengthVal.AsInt()
 
-			var start int
-			end := lengthVal.AsInt() - 1
+			start := 0
+			end := length - 1
+			var hasStart, hasEnd, startOpen, endOpen bool
 
 			switch r := rangeVal.(type) {
 			case *value.ClosedRange:
-				start = r.Start.AsInt()
-				end = r.End.AsInt()
+				start, end = r.Start.AsInt(), r.End.AsInt()
+				hasStart, hasEnd = true, true
 			case *value.LeftOpenRange:
-				start = r.Start.AsInt() + 1
-				end = r.End.AsInt()
+				start, end = r.Start.AsInt(), r.End.AsInt()
+				hasStart, hasEnd, startOpen = true, true, true
 			case *value.RightOpenRange:
-				start = r.Start.AsInt()
-				end = r.End.AsInt() - 1
+				start, end = r.Start.AsInt(), r.End.AsInt()
+				hasStart, hasEnd, endOpen = true, true, true
 			case *value.OpenRange:
-				start = r.Start.AsInt() + 1
-				end = r.End.AsInt() - 1
+				start, end = r.Start.AsInt(), r.End.AsInt()
+				hasStart, hasEnd, startOpen, endOpen = true, true, true, true
 			case *value.BeginlessOpenRange:
-				end = r.End.AsInt() - 1
+				end = r.End.AsInt()
+				hasEnd, endOpen = true, true
 			case *value.BeginlessClosedRange:
 				end = r.End.AsInt()
+				hasEnd = true
 			case *value.EndlessOpenRange:
-				start = r.Start.AsInt() + 1
+				start = r.Start.AsInt()
+				hasStart, startOpen = true, true
 			case *value.EndlessClosedRange:
 				start = r.Start.AsInt()
+				hasStart = true
 			}
 
-			start, err = value.NormalizeArrayIndex(start, length)
-			if err.IsNotUndefined() {
-				return value.Undefined, err
+			// negative bounds count from the end; only then does an open bound
+			// exclude the index it names
+			if hasStart {
+				if start < 0 {
+					start += length
+				}
+				if startOpen {
+					start++
+				}
 			}
-
-			end, err = value.NormalizeArrayIndex(end, length)
-			if err.IsNotUndefined() {
-				return value.Undefined, err
+			if hasEnd {
+				if end < 0 {
+					end += length
+				}
+				if endOpen {
+					end--
+				}
+			}
+			if start > end {
+				return value.Ref(&value.ArrayTupleOfValue{}), value.Undefined
+			}
+			if start < 0 {
+				return value.Undefined, value.Ref(value.NewIndexOutOfRangeError(fmt.Sprint(start-length), length))
+			}
+			if end >= length {
+				return value.Undefined, value.Ref(value.NewIndexOutOfRangeError(fmt.Sprint(end), length))
 			}
 
 			var result value.ArrayTupleOfValue
